@@ -2,7 +2,7 @@
     Property theorems only, about the lexer model (Model/Lexer.v; [lex_next] is Lexer::try_next with
     the cursor position after the token). [adv_all cs p] is the cursor after the characters [cs]. *)
 From Coq Require Import NArith List Bool.
-From RV Require Import Model.Common Model.Datum Model.Lexer Proofs.LexProofs.
+From RV Require Import Model.Common Model.Datum Model.Lexer Model.Reader Proofs.LexProofs Proofs.ReaderProofs.
 Import ListNotations.
 Local Open Scope N_scope.
 
@@ -45,3 +45,16 @@ Proof. exact lex_identifier. Qed.
     input or a reported error - never a panic, never a timeout *)
 Theorem C06_lexer_total : forall l p, fine (lex_next (lex_fuel l) l p).
 Proof. exact lex_next_total. Qed.
+
+(** every token costs at least one character of input, and the reader always answers - a datum, the
+    end of the input or a reported syntax error - within the fuel the model gives it, for every input;
+    a datum costs at least one character, so a whole text is read in finitely many steps *)
+Theorem C06_token_consumes_input : forall fuel l p t tp r p',
+  lex_next fuel l p = Ok (Some (t, tp), r, p') -> (length r < length l)%nat.
+Proof. exact lex_next_progress. Qed.
+Theorem C06_reader_always_answers : forall s, fine (read_next s).
+Proof. exact read_next_total. Qed.
+Theorem C06_datum_consumes_input : forall s d s', read_next s = Ok (Some d, s') -> (L s' < L s)%nat.
+Proof. exact read_next_progress. Qed.
+Theorem C06_whole_text_is_read : forall text, fine (read_text text).
+Proof. exact read_text_total. Qed.
